@@ -461,7 +461,7 @@ TIE_FILES = {   # tie file -> functions of pyerrors/obs.py it needs regenerated
     "Tie_expand_deltas.v": ["_expand_deltas"],
     "Tie_merge.v": ["_expand_deltas_for_merge", "_merge_idx"],
     "Tie_inter.v": ["_intersection_idx"],
-    "Tie_reduce.v": ["_reduce_deltas"],
+    "Tie_reduce.v": ["_reduce_deltas", "reweight_samples"],
     "Tie_gap.v": ["_determine_gap", "gamma_method_w_max"],
     "Tie_kwarg.v": ["_parse_kwarg"],
     "Tie_scalef.v": ["_compute_scalefactor_missing_rep"],
